@@ -137,7 +137,9 @@ def gen_sentences(tier):
     for mb in ("INBOX", "with space", "lit\r\nbox"):
         for fm in forms(mb)[:2]:
             for fl, fe in FLAGLISTS[:3]:
-                for dt, de in (("", None), ('"01-Jan-2024 10:11:12 +0100" ', (2024, 1, 1, 10, 11, 12, 60)), ('" 5-Feb-1999 00:00:00 -0800" ', (1999, 2, 5, 0, 0, 0, -480))):
+                for dt, de in (("", None), ('"01-Jan-2024 10:11:12 +0100" ', (2024, 1, 1, 10, 11, 12, 60)), ('" 5-Feb-1999 00:00:00 -0800" ', (1999, 2, 5, 0, 0, 0, -480)),
+                               ('"31-Dec-2023 23:59:58 -0330" ', (2023, 12, 31, 23, 59, 58, -210)), ('"29-Feb-2024 12:34:56 +0545" ', (2024, 2, 29, 12, 34, 56, 345)),
+                               ('"01-Mar-2024 00:25:23 -0045" ', (2024, 3, 1, 0, 25, 23, -45)), ('"15-Jul-2010 06:07:08 -0000" ', (2010, 7, 15, 6, 7, 8, 0))):
                     for plus in ("", "+"):
                         flpart = (fl + " ") if fl != "()" or True else ""
                         yield (f"{t} APPEND {fm} {flpart}{dt}{{{len(msg)}{plus}}}\r\n{msg}",
